@@ -59,6 +59,9 @@ def do_run(sid, tier="quick"):
         if a.returncode != 0:
             print("patch does not apply:", a.stderr[:300])
             res["applies"] = False
+            res["caught"] = None      # an earlier verdict must not survive a patch that no longer applies
+            meta.setdefault("results", {})[tier] = res
+            (d / "meta.json").write_text(json.dumps(meta, indent=1))
             return 2
         res["applies"] = True
         r1 = sh(["/venv/bin/python", str(d / "demonstration.py")], env=ENV, timeout=300)
